@@ -815,3 +815,21 @@ def future_truthiness(R, rule, only_under=None):
                                 "`%s` is a %s and is tested for truth in `%s`: FutureBase refuses conversion to bool (TypeError in the compiled build); "
                                 "write `is not None`" % (q.src(a), bad[0].name if bad else "?", q.src(t)[:60]))
     return n
+
+
+def iterates_items(fn_node, it, field="self.items"):
+    """Is `it` (a for-loop's iterable) the batch's item list, a copy of it, or a local built from it by a (possibly filtering)
+    comprehension / append loop?"""
+    if q.dotted(it) == field:
+        return True
+    if q.src(it) in ("list(%s)" % field, "%s[:]" % field, "tuple(%s)" % field):
+        return True
+    if isinstance(it, ast.Name):
+        vals = [v for k, v in assigned_values(fn_node, it.id) if k == "expr"]
+        for v in vals:
+            cmp_ = kit.as_comprehension(fn_node, v)
+            if cmp_ is not None and q.src(cmp_[2]) == field:
+                return True
+            if q.src(v) in ("list(%s)" % field, "%s[:]" % field, "tuple(%s)" % field):
+                return True
+    return False
